@@ -446,6 +446,43 @@ def is_pure_forwarder(info):
 
 
 # ---------------------------------------------------------------------------
+# built-in registries: keys of OBJ_MAP / OBJ_MAP_OBSERVABLE of stix2/v20, stix2/v21
+
+def registry_keys(repo):
+    """{('2.0','objects'): [...], ...} from the dict literals of the two version
+    packages (registry._collect_stix2_mappings publishes exactly those dicts)."""
+    out = {}
+    for ver, rel in (("2.0", "stix2/v20/__init__.py"), ("2.1", "stix2/v21/__init__.py")):
+        try:
+            tree = ast.parse(open(os.path.join(repo, rel), encoding="utf-8").read(), filename=rel)
+        except OSError as e:
+            raise TranslateError("cannot read %s: %s" % (rel, e))
+        found = {}
+        for node in tree.body:
+            if isinstance(node, ast.Assign) and len(node.targets) == 1 and isinstance(node.targets[0], ast.Name) \
+                    and node.targets[0].id in ("OBJ_MAP", "OBJ_MAP_OBSERVABLE"):
+                if node.targets[0].id in found:
+                    raise TranslateError("%s: %s assigned twice" % (rel, node.targets[0].id))
+                if not isinstance(node.value, ast.Dict):
+                    raise TranslateError("%s: %s is not a dict literal" % (rel, node.targets[0].id))
+                keys = []
+                for k in node.value.keys:
+                    if not (isinstance(k, ast.Constant) and isinstance(k.value, str)):
+                        raise TranslateError("%s: non-literal key in %s" % (rel, node.targets[0].id))
+                    if not all(32 <= ord(c) <= 126 and c not in '\\"' for c in k.value):
+                        raise TranslateError("%s: key %r of %s outside printable ASCII" % (rel, k.value, node.targets[0].id))
+                    keys.append(k.value)
+                if len(set(keys)) != len(keys):
+                    raise TranslateError("%s: duplicate key in %s" % (rel, node.targets[0].id))
+                found[node.targets[0].id] = keys
+        for name, cat in (("OBJ_MAP", "objects"), ("OBJ_MAP_OBSERVABLE", "observables")):
+            if name not in found:
+                raise TranslateError("%s: %s not found" % (rel, name))
+            out[(ver, cat)] = found[name]
+    return out
+
+
+# ---------------------------------------------------------------------------
 
 class Translator:
     def __init__(self, repo):
@@ -842,6 +879,12 @@ class Translator:
         L.append(";\n".join("  (%s, %s)" % (cstr(a), cstr(b)) for a, b in self.aliases))
         L.append("].")
         L.append("Definition workbench_env : string := %s." % cstr(self.workbench_env))
+        L.append("")
+        L.append("(* keys of the built-in registries (OBJ_MAP / OBJ_MAP_OBSERVABLE dict literals of stix2/v20, stix2/v21) *)")
+        rk = registry_keys(self.w.repo)
+        for (ver, cat), name in ((("2.0", "objects"), "reg_objects20"), (("2.0", "observables"), "reg_observables20"),
+                                 (("2.1", "objects"), "reg_objects21"), (("2.1", "observables"), "reg_observables21")):
+            L.append("Definition %s : list string := %s." % (name, clist([cstr(k) for k in rk[(ver, cat)]])))
         L.append("")
         return "\n".join(L)
 
